@@ -194,9 +194,16 @@ func contract(c tcase, o obs) []finding {
 		if o.Ret != n {
 			bad("return-point", "the call must return exactly when every member has completed", fmt.Sprintf("after %d completions", n), fmt.Sprintf("after %d", o.Ret))
 		}
+		exceededBy := n + 1 // number of completions after which a failure first exceeded the budget ("cancelled on error")
+		for k := 1; k <= n; k++ {
+			if o.Actual[o.Returned[k-1]].Err != 0 && fails(k) > allowed {
+				exceededBy = k
+				break
+			}
+		}
 		for k, cs := range o.Cancel {
 			want := "0"
-			if fails(k) > allowed || parentCancelledAt(k) || (k >= n) {
+			if k >= exceededBy || parentCancelledAt(k) || (k >= n) {
 				want = "1"
 			}
 			if cs != "-" && cs != want {
